@@ -66,6 +66,26 @@ def gen_table(rng, tier="quick", fmt="arff"):
     return {"cols": cols, "rows": rows}
 
 
+def gen_rows(rng, cols, nrows, plainness=0.2, miss_p=0.1):
+    """fresh rows for given columns (used to build a second file that shares the attribute section of a first one)"""
+    rows = []
+    for _ in range(nrows):
+        r = []
+        for c in cols:
+            if rng.chance(miss_p):
+                r.append(None)
+            elif c["type"] == "numeric":
+                r.append(rng.choice(NUMTEXT))
+            elif c["type"] == "nominal":
+                r.append(rng.choice(c["levels"]))
+            elif c["type"] == "date":
+                r.append("%04d-%02d-%02d" % (rng.randint(1990, 2030), rng.randint(1, 12), rng.randint(1, 28)))
+            else:
+                r.append(gen_text(rng, 6, plainness))
+        rows.append(r)
+    return rows
+
+
 # ------------------------------------------------------------------ ARFF writers
 WEKA_ESC = {"\\": "\\\\", "'": "\\'", '"': '\\"', "%": "\\%", "\t": "\\t", "\n": "\\n", "\r": "\\r"}
 WEKA_TRIGGER = set("{}, ")
@@ -476,7 +496,7 @@ def run_script(sink, script):
             sink.write(op["w"])
 
 
-def run_disk(writes, gz, batch, name="f", mode=None):
+def run_disk(writes, gz, batch, name="f", mode=None, relpath=None, direct=None):
     """one DiskSink(path[,mode][,batch]) used as the script says (plain write calls, with-blocks around writes, nested),
     then list(DiskSource(path).read()); also the raw bytes.  `writes`: a script, or a plain list of write arguments"""
     from coba.pipes.sinks import DiskSink
@@ -484,8 +504,15 @@ def run_disk(writes, gz, batch, name="f", mode=None):
     script = writes if (writes and isinstance(writes[0], dict)) else [{"w": w} for w in writes]
     d = tempfile.mkdtemp(prefix="c12_")
     try:
-        path = os.path.join(d, name + (".log.gz" if gz else ".log"))
+        path = os.path.join(d, relpath) if relpath else os.path.join(d, name + (".log.gz" if gz else ".log"))
+        os.makedirs(os.path.dirname(path), exist_ok=True)
         try:
+            if direct:          # a file produced by something else (gzip / plain text), only read with DiskSource
+                import gzip
+                data = "".join(l + "\n" for l in script_lines(script)).encode("utf-8")
+                with (gzip.open(path, "wb") if direct == "gzip" else open(path, "wb")) as f:
+                    f.write(data)
+                return {"ok": list(DiskSource(path).read()), "raw": None}
             kw = {}
             if batch:
                 kw["batch"] = batch
@@ -1159,7 +1186,15 @@ class C12(Property):
             script = [{"with": script}]
         elif rng.chance(0.15):
             mode = "a"
-        return {"kind": "disk", "script": script, "mode": mode, "gz": rng.chance(0.5), "batch": rng.choice([None, None, 1, 2, 3])}
+        case = {"kind": "disk", "script": script, "mode": mode, "gz": rng.chance(0.5), "batch": rng.choice([None, None, 1, 2, 3])}
+        if rng.chance(0.4):
+            # where '.gz' sits in the path: DiskSink and DiskSource must agree on what is a gzip file
+            case["path"] = rng.choice(["table.csv.gz", "table.csv.gz.1", "log.gz.bak", "cache.gz/table.csv", "cache.gz/t.log.gz", "a.gzip", "data.GZ",
+                                       "plain.txt", "x.gz.d/y.gz.z/f", "f.gz", "archive.tgz", "notgz/f.log"])
+            case["gz"] = ".gz" in case["path"]
+            if rng.chance(0.3) and (case["path"].endswith(".gz") or ".gz" not in case["path"]) and not bad:
+                case["direct"] = "gzip" if case["path"].endswith(".gz") else "plain"
+        return case
 
     def gen_csv(self, rng, tier):
         rows, header = gen_csv_table(rng)
@@ -1220,8 +1255,26 @@ class C12(Property):
                 c["src"] = False
                 inputs.append(c)
         elif fmt == "arff":
-            for _ in range(n):
-                c = self.gen_arff(rng, tier)
+            share = rng.chance(0.6)
+            for k in range(n):
+                if share and k > 0:
+                    # a file that SHARES the attribute section of the first one (identical nominal specs / names, same spelling)
+                    # but differs in dense-vs-sparse, column order and data
+                    base = inputs[0]
+                    cols = list(base["table"]["cols"])
+                    mode = rng.choice(["same", "same", "reordered", "subset"])
+                    if mode == "reordered":
+                        cols = rng.shuffle(cols)
+                    elif mode == "subset" and len(cols) > 1:
+                        cols = cols[:rng.randint(1, len(cols) - 1)]
+                    c = {"kind": "arff", "table": {"cols": cols, "rows": gen_rows(rng, cols, rng.choice([1, 2, 3]))},
+                         "dense": (not base["dense"]) if rng.chance(0.75) else base["dense"], "sp": dict(base["sp"])}
+                else:
+                    c = self.gen_arff(rng, tier)
+                    if share and not any(col["type"] == "nominal" for col in c["table"]["cols"]):
+                        c["table"]["cols"][0] = {"name": c["table"]["cols"][0]["name"], "type": "nominal", "levels": ["a", "b", "c"]}
+                        for r in c["table"]["rows"]:
+                            r[0] = rng.choice(["a", "b", "c"])
                 c["via"] = {"mode": "lines"}
                 c["src"] = False
                 inputs.append(c)
@@ -1274,6 +1327,10 @@ class C12(Property):
         cs.append({"kind": "disk", "writes": [["aé", "", "b "]], "gz": False, "batch": None})
         cs.append({"kind": "disk", "writes": [["a", "b", "c", "d"], "e"], "gz": True, "batch": 2})
         cs.append({"kind": "disk", "writes": [["a\rb"]], "gz": False, "batch": None})
+        for p in ("table.csv.gz.1", "cache.gz/table.csv", "t.log.gz", "data.GZ", "x.gz.d/f", "plain.txt"):
+            cs.append({"kind": "disk", "script": [{"w": ["aé", "b", ""]}, {"w": "c"}], "mode": None, "gz": ".gz" in p, "batch": None, "path": p})
+        cs.append({"kind": "disk", "script": [{"w": ["aé", "b"]}], "mode": None, "gz": True, "batch": None, "path": "made-by-gzip.csv.gz", "direct": "gzip"})
+        cs.append({"kind": "disk", "script": [{"w": ["aé", "b"]}], "mode": None, "gz": False, "batch": None, "path": "made-by-open.GZ", "direct": "plain"})
         for gz in (False, True):
             cs.append({"kind": "disk", "script": [{"with": [{"w": "first"}, {"w": ["second", "third"]}]}, {"w": "fourth"}], "mode": None, "gz": gz, "batch": None})
             cs.append({"kind": "disk", "script": [{"with": [{"w": "first"}, {"w": ["second", "third"]}]}], "mode": "w", "gz": gz, "batch": None})
@@ -1309,6 +1366,11 @@ class C12(Property):
         cs.append({"kind": "reuse", "fmt": "csv", "abandon": [False, False], "inputs": [
             {"kind": "csv", "rows": [["1", "ann", "0.5"], ["2", "bob", "0.7"]], "header": ["id", "name", "score"], "sp": dict(base), "via": {"mode": "lines"}},
             {"kind": "csv", "rows": [["0.1", "7", "Oslo", "eve"], ["0.2", "8", "Rome", "dan"]], "header": ["score", "id", "city", "name"], "sp": dict(base), "via": {"mode": "lines"}}]})
+        shared = {"cols": [{"name": "n", "type": "numeric"}, {"name": "c", "type": "nominal", "levels": ["x", "y"]}], "rows": [["1", "y"], ["2", "x"]]}
+        for d1, d2 in ((False, True), (True, False)):
+            cs.append({"kind": "reuse", "fmt": "arff", "abandon": [False, False], "inputs": [
+                {"kind": "arff", "table": shared, "dense": d1, "sp": {"sseed": 1, "style": "weka"}, "via": {"mode": "lines"}},
+                {"kind": "arff", "table": dict(shared, rows=[["3", "x"]]), "dense": d2, "sp": {"sseed": 1, "style": "weka"}, "via": {"mode": "lines"}}]})
         cs.append({"kind": "reuse", "fmt": "csv", "abandon": [True, False], "inputs": [
             {"kind": "csv", "rows": [["1", "2"], ["3", "4"]], "header": ["a", "b"], "sp": dict(base), "via": {"mode": "lines"}},
             {"kind": "csv", "rows": [["5"]], "header": ["c"], "sp": dict(base), "via": {"mode": "lines"}}]})
@@ -1470,13 +1532,23 @@ class C12(Property):
             if any("with" not in op for op in script) and any("with" in op for op in script):
                 tags.append("with-block:and-plain-writes")
         hyp = all("\r" not in l and "\n" not in l for l in flat)
-        impl = run_disk(script, case["gz"], case["batch"], mode=case.get("mode"))
+        impl = run_disk(script, case["gz"], case["batch"], mode=case.get("mode"), relpath=case.get("path"), direct=case.get("direct"))
+        if case.get("path"):
+            p = case["path"]
+            shape = ("gz-in-dirname" if ".gz" in os.path.dirname(p) else "gz-at-end" if p.endswith(".gz") else "gz-in-the-middle" if ".gz" in p
+                     else "GZ-uppercase" if ".gz" in p.lower() else "no-gz")
+            tags.append("path:" + shape)
+        if case.get("direct"):
+            tags.append("direct-file:" + case["direct"])
         raw = impl.pop("raw", None)
         if not hyp:
             tags.append("line-with-terminator")
         if hyp and impl != {"ok": flat}:
-            fails.append(F("B", "DiskSink(%s%s,batch=%r) used as %s then DiskSource.read(): %r, written %r" % ("x.log.gz" if case["gz"] else "x.log", ", mode=%r" % case["mode"] if case.get("mode") else "", case["batch"], json.dumps(script), impl, flat),
-                           "disk:" + ("raises-" + impl["err"] if "err" in impl else "lines-differ") + (":gz" if case["gz"] else ":plain")))
+            pname = case.get("path") or ("x.log.gz" if case["gz"] else "x.log")
+            how = ("a file %r written directly with %s" % (pname, "gzip.open" if case.get("direct") == "gzip" else "open")) if case.get("direct") else \
+                  ("DiskSink(%r%s,batch=%r) used as %s" % (pname, ", mode=%r" % case["mode"] if case.get("mode") else "", case["batch"], json.dumps(script)))
+            fails.append(F("B", "%s then DiskSource(%r).read(): %r, written %r" % (how, pname, impl, flat),
+                           "disk:" + ("raises-" + impl["err"] if "err" in impl else "lines-differ") + (":gz" if ".gz" in pname else ":plain")))
         model = None
         if driver is not None:
             parts, ok = [], True
@@ -1600,6 +1672,12 @@ class C12(Property):
         from coba.pipes.readers import CsvReader, ArffReader, LibsvmReader, ManikReader
         fmt = case["fmt"]
         fails, tags = [], ["kind:reuse", "reuse:" + fmt, "reuse:%d-inputs" % len(case["inputs"])]
+        if fmt == "arff":
+            specs = [set(json.dumps(c, sort_keys=True) for c in sub["table"]["cols"] if c["type"] == "nominal") for sub in case["inputs"]]
+            if any(specs[i] & specs[j] for i in range(len(specs)) for j in range(i + 1, len(specs))):
+                tags.append("reuse:shared-nominal-spec")
+                if len({sub["dense"] for sub in case["inputs"]}) > 1:
+                    tags.append("reuse:shared-nominal-spec:dense-and-sparse")
         first = case["inputs"][0]
         if fmt == "csv":
             d = first["sp"].get("delimiter", ",")
@@ -2119,8 +2197,8 @@ class C12(Property):
             return head + ("import tempfile, os\nfrom coba.pipes.sinks import DiskSink\nfrom coba.pipes.sources import DiskSource\n"
                            "def run(sink, script):\n    for op in script:\n        if 'with' in op:\n            with sink: run(sink, op['with'])\n"
                            "        else: sink.write(op['w'])\n"
-                           "p = os.path.join(tempfile.mkdtemp(), %r)\ns = DiskSink(p%s)\nrun(s, %r)\nprint(list(DiskSource(p).read()), '| written', %r)\n"
-                           % ("f.log.gz" if case["gz"] else "f.log", args, sc, script_lines(sc)))
+                           "p = os.path.join(tempfile.mkdtemp(), %r); os.makedirs(os.path.dirname(p), exist_ok=True)\ns = DiskSink(p%s)\nrun(s, %r)\nprint(list(DiskSource(p).read()), '| written', %r)\n"
+                           % (case.get("path") or ("f.log.gz" if case["gz"] else "f.log"), args, sc, script_lines(sc)))
         if k == "csv":
             lines = write_csv(case["rows"], case["sp"], case["header"])
             d = case["sp"].get("delimiter", ",")
